@@ -343,6 +343,8 @@ package threshold
 
 //@ func (*Scheme).runDKG
 //@   props C11
+//@   seq
+//@   modifies nothing
 //@   requires ctx != nil && membership != nil && dkgProtocolInstance != nil && sync != nil
 //@   at return:
 //@     assert [timeout-is-error] done(ctx) ==> result.2 != nil
